@@ -59,3 +59,7 @@ Proof.
   pose proof trim_tree_sites_fact as H. apply andb_prop in H. destruct H as [_ H].
   rewrite forallb_forall in H. apply H. exact Hin.
 Qed.
+
+(* the guard in front of the node-limiting step is the one the model assumes (node_count_guard) *)
+Lemma node_limit_guard_fact : node_limit_guard = "> 0".
+Proof. vm_compute. reflexivity. Qed.
